@@ -27,7 +27,15 @@ IntClauses(r) ==
   C08_DetailsAgree |-> r.details_same
   ]
 
+\* "a stated fraction of the curve length": the envelope of each estimator on
+\* noise-free model curves with a baseline of 20-80 % of the approach (in
+\* thousandths of the array length; the two crude ones are stated as such)
+AccBound == [deviation_from_baseline |-> 100, fit_constant_line |-> 300,
+             fit_constant_polynomial |-> 80, fit_line_polynomial |-> 80,
+             frechet_direct_path |-> 350, gradient_zero_crossing |-> 80]
+
 EnvClauses(r) == [
+  C08_CleanCurveAccuracy |-> r.clean => r.err_permille <= AccBound[r.method],
   C08_NeverRaises |-> r.raised = "",
   C08_ValidIndex  |-> (r.raised = "") => r.is_int /\ 0 <= r.cp /\ r.cp < r.n,
   C08_ScalePow2Exact |-> r.pow2_same,
